@@ -7,9 +7,19 @@ import Gama.Lemmas.AdjState
 namespace Gama.C04.AdjM
 open Gama Gama.C04 Gama.C04.Full
 
-def HAOp.Valid : HAOp → Prop
-  | .q op => op.Valid
+/-- a call is valid relative to the data the object holds when it is made -/
+def HAOp.Valid (cur : AInput) : HAOp → Prop
+  | .q op => op.Valid cur.env.n
   | .setData inp' => inp'.Ok
+
+def HAOp.next (cur : AInput) : HAOp → AInput
+  | .q _ => cur
+  | .setData inp' => inp'
+
+/-- validity of a history starting with data `cur` (round 4) -/
+def HAValid (cur : AInput) : List HAOp → Prop
+  | [] => True
+  | o :: os => o.Valid cur ∧ HAValid (o.next cur) os
 
 /-- the matrix a fresh object's solver is given -/
 def expectedIn (inp : AInput) (a : Alg) : Option AProv :=
@@ -37,7 +47,12 @@ theorem hastep_q (h : HA) (op : AOp) :
   · split <;> exact ⟨rfl, rfl⟩
   · exact ⟨rfl, rfl⟩
 
-theorem hastep_inv {h : HA} (hi : HAInv h) (o : HAOp) (hv : o.Valid) : HAInv (hastep h o).1 := by
+theorem hastep_inp (h : HA) (o : HAOp) : (hastep h o).1.inp = o.next h.inp := by
+  cases o with
+  | setData inp' => rfl
+  | q op => exact (hastep_q h op).1
+
+theorem hastep_inv {h : HA} (hi : HAInv h) (o : HAOp) (hv : o.Valid h.inp) : HAInv (hastep h o).1 := by
   cases o with
   | setData inp' =>
     refine ⟨hv, ⟨fun hh => ?_⟩, fun hh => ?_⟩
@@ -64,19 +79,18 @@ theorem hastep_inv {h : HA} (hi : HAInv h) (o : HAOp) (hv : o.Valid) : HAInv (ha
       exfalso
       cases op <;> simp_all [isQuery, set_unsolved, setAlg_unsolved]
 
-theorem harun_inv {h : HA} (hi : HAInv h) {ops : List HAOp} (hops : ∀ o ∈ ops, o.Valid) :
+theorem harun_inv {h : HA} (hi : HAInv h) {ops : List HAOp} (hops : HAValid h.inp ops) :
     HAInv (harun h ops) := by
   induction ops generalizing h with
   | nil => exact hi
   | cons o ops ih =>
-    exact ih (hastep_inv hi o (hops o (List.mem_cons_self ..)))
-      (fun o' ho' => hops o' (List.mem_cons_of_mem _ ho'))
+    exact ih (hastep_inv hi o hops.1) ((hastep_inp h o).symm ▸ hops.2)
 
 /-- the history-free specification: `aspec` and the zero-based matrix of the current data -/
 def haspec (inp : AInput) (a : Alg) (op : AOp) : HAOut :=
   (aspec inp a op, if isQuery op then expectedIn inp a else none)
 
-theorem hastep_spec {h : HA} (hi : HAInv h) (op : AOp) (hv : op.Valid) :
+theorem hastep_spec {h : HA} (hi : HAInv h) (op : AOp) (hv : op.Valid h.inp.env.n) :
     (hastep h (.q op)).2 = haspec h.inp h.s.alg op := by
   have hs := astep_spec hi.ok hi.adj op hv
   by_cases hq : isQuery op = true
@@ -90,7 +104,7 @@ theorem hastep_spec {h : HA} (hi : HAInv h) (op : AOp) (hv : op.Valid) :
   · have hq' : isQuery op = false := by simpa using hq
     simp [hastep, hastepWith, hq', haspec, hs.2.1]
 
-theorem hastep_eq_fresh {h : HA} (hi : HAInv h) (op : AOp) (hv : op.Valid) :
+theorem hastep_eq_fresh {h : HA} (hi : HAInv h) (op : AOp) (hv : op.Valid h.inp.env.n) :
     (hastep h (.q op)).2 = hafresh h.inp h.s.alg op := by
   rw [hastep_spec hi op hv]
   unfold hafresh
